@@ -1,5 +1,10 @@
 /-
   Helper lemmas for C09 (model: PyndlModel/Create.lean).  Core Lean only.
+
+  Includes the comparison of the two code paths of `filter_symbols`
+  (`filterRegex`: `re.sub` with the negated set; `filterCallable`: the index loop
+  over a copy): `subChar_eq_map`, `filterCallable_loop`, `filterSymbols_eq_map`,
+  `filterRegex_eq_filterCallable`.
 -/
 import PyndlModel.Create
 
@@ -320,22 +325,88 @@ theorem mem_removeSpecial {s : List Char} {c : Char} (h : c ∈ removeSpecial s)
   · simp only [hs, if_true]; decide
   · simp only [hs]; simpa using hs
 
+/-! #### the two branches of `filter_symbols` compute the same map -/
+
+/-- `re.sub` with a one-character pattern is a per-character map. -/
+theorem subChar_eq_map (pat : Char → Bool) (repl : Char) (s : List Char) :
+    subChar pat repl s = s.map fun c => if pat c then repl else c := by
+  induction s with
+  | nil => rfl
+  | cons c cs ih => by_cases h : pat c = true <;> simp [subChar, h, ih]
+
+/-- the regex branch replaces exactly the characters outside the set -/
+theorem filterRegex_eq_map (items : List (Char × Char)) (repl : Char) (s : List Char) :
+    filterRegex items repl s = s.map fun c => if inRanges items c then c else repl := by
+  rw [filterRegex, subChar_eq_map]
+  apply List.map_congr_left
+  intro c _
+  simp only [negClassMatches, inRanges]
+  by_cases h : (items.any fun r => decide (r.1.toNat ≤ c.toNat) && decide (c.toNat ≤ r.2.toNat)) = true
+  · simp [h]
+  · simp [h]
+
+/-- the state of the index loop after the first `n` indices: the first `n`
+    positions are filtered, the rest is still the copy of the line -/
+theorem filterCallable_loop (allowed : Char → Bool) (repl : Char) (line : List Char) :
+    ∀ n, n ≤ line.length →
+      (List.range n).foldl (filterCallableStep allowed repl line) line
+      = (line.take n).map (fun c => if allowed c then c else repl) ++ line.drop n := by
+  intro n
+  induction n with
+  | zero => intro _; simp
+  | succ n ih =>
+    intro hn
+    have hlt : n < line.length := hn
+    rw [List.range_succ, List.foldl_append, ih (Nat.le_of_lt hlt)]
+    simp only [List.foldl_cons, List.foldl_nil, filterCallableStep, List.getElem?_eq_getElem hlt]
+    have htake : line.take (n + 1) = line.take n ++ [line[n]] := by
+      rw [List.take_add_one, List.getElem?_eq_getElem hlt]; rfl
+    have hdrop : line.drop n = line[n] :: line.drop (n + 1) := (List.getElem_cons_drop hlt).symm
+    have hlen : ((line.take n).map fun c => if allowed c then c else repl).length = n := by
+      simp [Nat.min_eq_left (Nat.le_of_lt hlt)]
+    by_cases ha : allowed line[n] = true
+    · simp only [ha, if_true]
+      rw [htake, List.map_append, List.append_assoc, hdrop]
+      simp [ha]
+    · simp only [ha]
+      rw [htake, List.map_append, List.append_assoc]
+      conv => lhs; rw [hdrop]
+      rw [List.set_append_right _ _ (by rw [hlen]; exact Nat.le_refl n), hlen, Nat.sub_self]
+      simp only [ha, ↓reduceIte, List.map_cons, List.map_nil, List.cons_append, List.nil_append,
+        List.set_cons_zero, Bool.false_eq_true]
+
+/-- the callable branch replaces exactly the characters the callable rejects -/
+theorem filterCallable_eq_map (allowed : Char → Bool) (repl : Char) (s : List Char) :
+    filterCallable allowed repl s = s.map fun c => if allowed c then c else repl := by
+  have := filterCallable_loop allowed repl s s.length (Nat.le_refl _)
+  simpa [filterCallable] using this
+
+/-- **both branches are the per-character map of the denotation `Allowed.ok`** -/
+theorem filterSymbols_eq_map (a : Allowed) (s : List Char) :
+    filterSymbols a s = s.map fun c => if a.ok c then c else ' ' := by
+  cases a with
+  | all => simp [filterSymbols, Allowed.ok]
+  | expr e => rw [filterSymbols, filterRegex_eq_map]; rfl
+  | table rs => rw [filterSymbols, filterCallable_eq_map]; rfl
+
+/-- **the regex branch and the callable branch agree** whenever the callable
+    accepts exactly the characters of the set (two different code paths of
+    `filter_symbols`). -/
+theorem filterRegex_eq_filterCallable (items : List (Char × Char)) (allowed : Char → Bool)
+    (h : ∀ c, allowed c = inRanges items c) (repl : Char) (s : List Char) :
+    filterRegex items repl s = filterCallable allowed repl s := by
+  rw [filterRegex_eq_map, filterCallable_eq_map]
+  apply List.map_congr_left
+  intro c _
+  rw [h c]
+
 theorem mem_filterSymbols {a : Allowed} {s : List Char} {c : Char} (h : c ∈ filterSymbols a s) :
     c = ' ' ∨ c ∈ s := by
-  cases a with
-  | all => exact Or.inr h
-  | expr e =>
-    simp only [filterSymbols, List.mem_map] at h
-    obtain ⟨d, hd, rfl⟩ := h
-    split
-    · exact Or.inr hd
-    · exact Or.inl rfl
-  | table rs =>
-    simp only [filterSymbols, List.mem_map] at h
-    obtain ⟨d, hd, rfl⟩ := h
-    split
-    · exact Or.inr hd
-    · exact Or.inl rfl
+  rw [filterSymbols_eq_map, List.mem_map] at h
+  obtain ⟨d, hd, rfl⟩ := h
+  split
+  · exact Or.inr hd
+  · exact Or.inl rfl
 
 theorem mem_processLineG {ops : TextOps} {lc : Bool} {a : Allowed} {line : List Char} {c : Char}
     (h : c ∈ processLineG ops lc a line) : isSpecial c = false := by
